@@ -35,12 +35,13 @@ structure Leaks where
   newAcc : Bool     -- constructor.Generator.getsetMethods is only ever appended to
   mapCtor : Bool    -- mapper.Generator.srcCtorParams/destCtorParams keep the previous type's value unless the type has ShootNew
   mapAcc : Bool     -- mapper.Generator.getsetMethods/destGetSetMethods likewise
+  mapTag : Bool := false  -- mapper.Generator.srcTagMap is kept and filled further instead of being re-made for every type
   deriving DecidableEq, Repr, Inhabited
 
-def noLeaks : Leaks := { hasNew := false, newAcc := false, mapCtor := false, mapAcc := false }
+def noLeaks : Leaks := { hasNew := false, newAcc := false, mapCtor := false, mapAcc := false, mapTag := false }
 
 /-- the code before the `fix:` commits 2659527 (new) and 002876f (map): all four fields were carried -/
-def codeBeforeFix : Leaks := { hasNew := true, newAcc := true, mapCtor := true, mapAcc := true }
+def codeBeforeFix : Leaks := { hasNew := true, newAcc := true, mapCtor := true, mapAcc := true, mapTag := false }
 
 /-- the code at HEAD: `constructor.MakeData` resets `hasNew`/`getsetMethods` (2659527) and `mapper.MakeData` resets
     the constructor-parameter and accessor lists (002876f) for every type.  (A field that starts to leak again is
@@ -314,7 +315,8 @@ def newMachine (lk : Leaks) (fl : NFlags) : Machine NSt NType NOut :=
   { init := {}, step := newStep lk fl, stale := fun _ => fl.getset, gfile := newGFile }
 
 /-! ## `map` (restricted to what the carried state can influence: plain exported fields of one common
-type, `shoot new` types with constructor and accessors; no tags, mapper funcs, manual methods, embeds) -/
+type, `shoot new` types with constructor and accessors, `map:"Name"` tags on source fields; no mapper funcs, manual
+methods, embeds) -/
 
 /-- a member of `exportedFields` / `destExportedFields` after `makeCompatible` -/
 structure MField where
@@ -347,6 +349,7 @@ structure MType where
   src : MSide
   dest : Option MSide           -- none: no such type in the destination package
   specified : Bool := true      -- `-type=` list (missing dest is fatal) vs `-file=` / `*` (skipped)
+  tags : List (String × String) := []   -- `map:"X"` tags of the source struct: (field name, tag), declaration order
   deriving Repr, Inhabited
 
 structure MSt where
@@ -356,6 +359,7 @@ structure MSt where
   destAcc : List Acc := []      -- carried (defect)
   writeSrc : List String := []  -- reset (parseManual)
   writeDest : List String := [] -- reset
+  tagMap : List (String × String) := []  -- srcTagMap: reset (parseSrcFields re-makes it for every type)
   deriving Repr, Inhabited
 
 structure MOut where
@@ -368,8 +372,15 @@ structure MOut where
 def smartMatch (a b : String) : Bool :=
   a.length = b.length && (a = b || Transfer.camelS a = Transfer.camelS b)
 
-def canNameMatch (f1 f2 : MField) : Bool :=
-  !(f1.isGet && f2.isGet) && !(f1.isSet && f2.isSet) && smartMatch f1.matching f2.matching
+/-- `srcTagMap` after the walk over a struct: `tagMap[ToPascalCase(field)] = ToPascalCase(tag)`, a later field of the
+    same key overwrites (assoc list: newest first) -/
+def tagTable (tags : List (String × String)) : List (String × String) :=
+  (tags.map (fun p => (Transfer.pascalS p.1, Transfer.pascalS p.2))).reverse
+
+/-- `canNameMatch(f1, f2, tagMap, false)`: `f1` is the SOURCE member - its matching name is replaced by its tag -/
+def canNameMatch (tags : List (String × String)) (f1 f2 : MField) : Bool :=
+  !(f1.isGet && f2.isGet) && !(f1.isSet && f2.isSet) &&
+    smartMatch ((tags.lookup (Transfer.pascalS f1.matching)).getD f1.matching) f2.matching
 
 def mkParams (side : MSide) : List CParam :=
   side.ctor.map (fun b => { name := if exported b then b else "Set" ++ Transfer.pascalS b, backing := b })
@@ -382,20 +393,25 @@ def pseudo (a : Acc) : MField :=
   if a.getter then { name := a.name, backing := a.name, isGet := true }
   else { name := a.name, backing := trimSet a.name, isSet := true }
 
+/-- `f1, f2 := f, p; if paramIsSrc { f1, f2 = p, f }` (ctor.go): the source member comes first -/
+def ctorNameMatch (tags : List (String × String)) (paramIsSrc : Bool) (f : MField) (p : CParam) : Bool :=
+  if paramIsSrc then canNameMatch tags { name := p.name, backing := p.backing } f
+  else canNameMatch tags f { name := p.name, backing := p.backing }
+
 /-- inner loop of `makeCtorMatch` for one field `f` over the parameters -/
-def ctorInner (f : MField) : List CParam → List String → List CParam × List String
+def ctorInner (tags : List (String × String)) (paramIsSrc : Bool) (f : MField) : List CParam → List String → List CParam × List String
   | [], w => ([], w)
   | p :: ps, w =>
-    if !f.isSet && canNameMatch f { name := p.name, backing := p.backing } && !w.contains p.name then
-      let r := ctorInner f ps (p.name :: w)
+    if !f.isSet && ctorNameMatch tags paramIsSrc f p && !w.contains p.name then
+      let r := ctorInner tags paramIsSrc f ps (p.name :: w)
       ({ p with target := some f } :: r.1, r.2)
     else
-      let r := ctorInner f ps w
+      let r := ctorInner tags paramIsSrc f ps w
       (p :: r.1, r.2)
 
-def ctorMatch : List MField → List CParam → List String → List CParam × List String
+def ctorMatch (tags : List (String × String)) (paramIsSrc : Bool) : List MField → List CParam → List String → List CParam × List String
   | [], ps, w => (ps, w)
-  | f :: fs, ps, w => let r := ctorInner f ps w; ctorMatch fs r.1 r.2
+  | f :: fs, ps, w => let r := ctorInner tags paramIsSrc f ps w; ctorMatch tags paramIsSrc fs r.1 r.2
 
 /-- `makeTypeMatch`, both directions at once.  State: write-sets (keyed by member NAME, as in the code), and
     the `Target` pointer of every source / destination member (keyed by the member's position in its list;
@@ -406,15 +422,15 @@ structure TM where
   tgtOfSrc : List (Nat × MField) := []   -- f1.Target (used by ToX)
   tgtOfDest : List (Nat × MField) := []  -- f2.Target (used by FromX)
 
-def tmPair (s : TM) (f1 : MField × Nat) (f2 : MField × Nat) : TM :=
-  if !canNameMatch f1.1 f2.1 then s else
+def tmPair (tags : List (String × String)) (s : TM) (f1 : MField × Nat) (f2 : MField × Nat) : TM :=
+  if !canNameMatch tags f1.1 f2.1 then s else
   let s1 := if !s.wDest.contains f2.1.name && !f2.1.isGet
     then { s with wDest := f2.1.name :: s.wDest, tgtOfSrc := (f1.2, f2.1) :: s.tgtOfSrc } else s
   if !s1.wSrc.contains f1.1.name && !f1.1.isGet
     then { s1 with wSrc := f1.1.name :: s1.wSrc, tgtOfDest := (f2.2, f1.1) :: s1.tgtOfDest } else s1
 
-def typeMatch (srcL destL : List MField) (s : TM) : TM :=
-  srcL.zipIdx.foldl (fun s f1 => destL.zipIdx.foldl (fun s f2 => tmPair s f1 f2) s) s
+def typeMatch (tags : List (String × String)) (srcL destL : List MField) (s : TM) : TM :=
+  srcL.zipIdx.foldl (fun s f1 => destL.zipIdx.foldl (fun s f2 => tmPair tags s f1 f2) s) s
 
 /-- end of `makeCtorMatch`: parameters without a target get their zero literal -/
 def fillZero (ps : List CParam) : List CParam := ps.map (fun p => if p.target.isNone then { p with zero := true } else p)
@@ -439,30 +455,36 @@ def argFrom (p : CParam) : List String :=
 def pick {α : Type} (own : Bool) (fresh : List α) (leak : Bool) (carried : List α) : List α :=
   if own then fresh else if leak then carried else []
 
-/-- MakeData from `parseManual` on, given the four lists -/
-def mapCore (t : MType) (dest : MSide) (srcCtor destCtor : List CParam) (srcAcc destAcc : List Acc) : MSt × Option MOut :=
+/-- what `parseSrcFields` leaves in `srcTagMap`: the type's own tags - on top of the entries of the earlier types when the map
+    is not re-made (`mapTag`) -/
+def tagsIn (lk : Leaks) (st : MSt) (t : MType) : List (String × String) :=
+  if lk.mapTag then tagTable t.tags ++ st.tagMap else tagTable t.tags
+
+/-- MakeData from `parseManual` on, given the four lists and the tag map -/
+def mapCore (t : MType) (dest : MSide) (tags : List (String × String)) (srcCtor destCtor : List CParam) (srcAcc destAcc : List Acc) : MSt × Option MOut :=
   -- makeCompatible
   let srcL := t.src.fields.map (fun n => ({ name := n } : MField)) ++ srcAcc.map pseudo
   let destL := dest.fields.map (fun n => ({ name := n } : MField)) ++ destAcc.map pseudo
   -- makeCtorMatch (write-sets were emptied by parseManual)
-  let r1 := ctorMatch srcL destCtor []
-  let r2 := ctorMatch destL srcCtor []
+  let r1 := ctorMatch tags false srcL destCtor []
+  let r2 := ctorMatch tags true destL srcCtor []
   let destCtor' := fillZero r1.1
   let srcCtor' := fillZero r2.1
   let toCtor := if destCtor'.any (·.target.isSome) then some (destCtor'.flatMap argTo) else none
   let fromCtor := if srcCtor'.any (·.target.isSome) then some (srcCtor'.flatMap argFrom) else none
   -- makeTypeMatch
-  let tm := typeMatch srcL destL { wDest := r1.2, wSrc := r2.2 }
+  let tm := typeMatch tags srcL destL { wDest := r1.2, wSrc := r2.2 }
   let toWrites := srcL.zipIdx.filterMap (fun f => (tm.tgtOfSrc.lookup f.2).map (fun d => (d.name, f.1.read)))
   let fromWrites := destL.zipIdx.filterMap (fun f => (tm.tgtOfDest.lookup f.2).map (fun s => (s.name, f.1.read)))
-  ({ srcCtor := srcCtor', destCtor := destCtor', srcAcc := srcAcc, destAcc := destAcc, writeSrc := tm.wSrc, writeDest := tm.wDest },
+  ({ srcCtor := srcCtor', destCtor := destCtor', srcAcc := srcAcc, destAcc := destAcc, writeSrc := tm.wSrc, writeDest := tm.wDest,
+     tagMap := tags },
    some { toCtor := toCtor, toWrites := toWrites, fromCtor := fromCtor, fromWrites := fromWrites })
 
 def mapStep (lk : Leaks) (_files : Disk) (st : MSt) (t : MType) : MSt × Option MOut :=
   match t.dest with
   | none => (st, none)      -- `-type=` list: fatal (outside this model); otherwise the type is skipped
   | some dest =>
-    mapCore t dest
+    mapCore t dest (tagsIn lk st t)
       (pick t.src.shootNew (mkParams t.src) lk.mapCtor st.srcCtor)
       (pick dest.shootNew (mkParams dest) lk.mapCtor st.destCtor)
       (pick t.src.shootNew (mkAccs t.src) lk.mapAcc st.srcAcc)
